@@ -18,6 +18,7 @@ register("C04", "exact_tail_sums", "c04_tails.py", "K in {1,5,200}, m in {2,3,6}
 register("C08", "two_design_failure_probability", "c08_pac.py", "theta in {45,60,90,120}, noise_var in {0.05,0.5,1,4}, eps in {0.2,1}, delta in {0.1,0.01}; union bound over facets")
 register("C12", "icecream_tangency_and_theta_90", "c12_icecream.py", "K in {3..12,16,32,64} x half-angles {5,20,45,60,85}; theta = 90 (one point)")
 register("C17", "optima_vs_certificates", "c17_optima.py", "11 bundled cones + 6 random cones in 2-4-D: alpha vs NNLS projection, u* KKT, beta = 1/alpha")
+register("C15", "posterior_vs_closed_form", "c15_posterior.py", "d in {1,2,3}, m in {2,3}, train sizes {1,3,12,40}, N in {1,2,7}: independent model vs closed-form conditioning (1e-5); order/batching/forgetting, variance monotone, model-list cross-talk for the other classes")
 register("C20", "noise_sample_moments", "c20_moments.py", "2 random correlated factors, 2e5 draws each, 5-sigma bands")
 
 
